@@ -5,7 +5,7 @@ import Pun.Model.Grid
 `stacking` mirrors `pba/aggregation.py stacking(..., return_type="pbox")`:
 `make_vec_interval` (at least one interval, every `lo ≤ hi`), the weighted ecdf of the lower
 and of the upper endpoints, `Staircase.from_CDFbundle` (extend, look up every grid level with
-the 'next' rule) and the `left_right_switch` of the `Pbox` constructor.
+the 'next' rule) the `left_right_switch` of the `Pbox` constructor and its `post_init_check` (bounds non-decreasing and not crossing).
 `DempsterShafer.to_pbox` is the same call; `Pbox.to_dss` lists the steps as focal intervals
 with mass `1/steps` each.
 -/
@@ -28,6 +28,14 @@ def allLE : List Rat → List Rat → Bool
   | a :: l, b :: r => decide (a ≤ b) && allLE l r
   | _, _ => true
 
+/-- `is_increasing` : `np.all(np.diff(arr) >= 0)` -/
+def sortedB : List Rat → Bool
+  | a :: b :: r => decide (a ≤ b) && sortedB (b :: r)
+  | _ => true
+
+/-- `Pbox.post_init_check`: both bounds non-decreasing, and (1ca78ea) the bounds do not cross -/
+def wfB (P : PB) : Bool := sortedB P.left && sortedB P.right && allLE P.left P.right
+
 /-- weights: `none` = `weights=None` (equal masses `1/N`) -/
 def weightsOf (n : Nat) : Option (List Rat) → List Rat
   | none => equalW n
@@ -45,7 +53,7 @@ def stacking (g : List Rat) (lo hi : List Rat) (w : Option (List Rat)) : Except 
       match getEcdf lo ws, getEcdf hi ws with
       | some e1, some e2 =>
         match bound g e1, bound g e2 with
-        | some l, some r => .ok (switch l r)
+        | some l, some r => if wfB (switch l r) then .ok (switch l r) else .error .Other
         | _, _ => .error .Other
       | _, _ => .error .Index
 
